@@ -443,6 +443,12 @@ func (vc *VC) scanInstr(f *Frame, in ssa.Instruction, heaps map[string]Sort, add
 	}
 	switch x := in.(type) {
 	case *ssa.Alloc:
+		if !x.Heap && !isArray(x.Type().Underlying().(*types.Pointer).Elem()) {
+			if addCell != nil && f != nil {
+				addCell(x)
+			}
+			return false
+		}
 		addAlive(x.Type().Underlying().(*types.Pointer).Elem())
 		if f != nil && f.scalarLocal(x) {
 			if addCell != nil {
@@ -452,7 +458,16 @@ func (vc *VC) scanInstr(f *Frame, in ssa.Instruction, heaps map[string]Sort, add
 			addType(x.Type().Underlying().(*types.Pointer).Elem())
 		}
 	case *ssa.Store:
-		if a, ok := x.Addr.(*ssa.Alloc); ok && !a.Heap && !isStruct(a.Type().Underlying().(*types.Pointer).Elem()) && !isArray(a.Type().Underlying().(*types.Pointer).Elem()) {
+		// stores into (fields of) local variables held by value modify a cell, not the heap
+		root := x.Addr
+		for {
+			fa, ok := root.(*ssa.FieldAddr)
+			if !ok {
+				break
+			}
+			root = fa.X
+		}
+		if a, ok := root.(*ssa.Alloc); ok && !a.Heap && !isArray(a.Type().Underlying().(*types.Pointer).Elem()) {
 			if addCell != nil && f != nil {
 				addCell(a)
 			}
